@@ -9,6 +9,7 @@ V: runs with one mutation applied to the response: every listed one (each bit
    library's verdict to equal FinalizeCheck; any token output must pass the
    independent oracle and carry the request's nonce, digest and key id."""
 import vlib
+from checks import verdicts_common as vc
 from checks import issuance_common as ic
 
 
@@ -16,6 +17,7 @@ def run(ctx):
     ctx.prove("IssuanceProofs")   # unbounded (TLAPS): accepted => honest content under the pinned key; tokens ignore the blind; verify-exact
     ic.model_check(ctx)
     n, cases, kinds = ic.run(ctx, "C02", ["mutations"])
+    vn, vcases, vdepth = vc.run(ctx, ["t1final", "t2final", "t5final", "t3final"])   # Verdicts.tla: one request state finalizing every history of responses
     rejecting = sum(v for k, v in kinds.items() if not k.endswith("/Id"))
     return ctx.finish({
         "traces_validated_against_impl": n,
@@ -23,6 +25,7 @@ def run(ctx):
         "distinct_nontrivial": ic.distinct(cases),
         "rule": "a case is one run with one mutation of the response; distinct = distinct (type, batch size, mutation incl. field and bit)",
         "runs_by_kind": kinds,
+        **vc.coverage(vn, vcases, vdepth),
         "mutated_runs": rejecting,
         "samples": [ic.short(c) for c in vlib.sample(cases, 4)],
         "exhaustive": ctx.thorough,
@@ -34,4 +37,6 @@ def run(ctx):
 
 
 def replay(ctx, path):
+    if vlib.json.load(open(path)).get("family") == "verdicts":
+        return vc.replay(ctx, path)
     return ctx.replay_case(path, "issuance", "Trace_Issuance", cfg="Trace_Issuance_C02.cfg")
